@@ -703,13 +703,17 @@ theorem InvExt.insertLoopUnnumbered {d d' : Db} (h : InvExt d) (cid : Nat) (cat 
 structure InvTree (d : Db) : Prop where
   blockFK : ∀ b ∈ d.blocks, d.hasContainer b.cid = true
   frameFK : ∀ f ∈ d.frames, d.hasContainer f.cid = true ∧ d.hasContainer f.parent = true
+  /-- a save frame's container is younger than its parent (the frame is created under an existing container and gets the next id
+      of the AUTOINCREMENT sequence): the frame relation has no cycle, and `absContainer`'s fuel `frames.length + 1` suffices -/
+  frameOrder : ∀ f ∈ d.frames, f.parent < f.cid
 
-theorem InvTree.empty : InvTree {} := ⟨(fun _ h => nomatch h), (fun _ h => nomatch h)⟩
+theorem InvTree.empty : InvTree {} := ⟨(fun _ h => nomatch h), (fun _ h => nomatch h), (fun _ h => nomatch h)⟩
 
 /-- statements that touch neither data_block nor save_frame and lose no container -/
 theorem InvTree.same {d d' : Db} (h : InvTree d) (hb : d'.blocks = d.blocks) (hf : d'.frames = d.frames)
     (hc : ∀ id, d.hasContainer id = true → d'.hasContainer id = true) : InvTree d' :=
-  ⟨by rw [hb]; exact fun b hbm => hc _ (h.blockFK b hbm), by rw [hf]; exact fun f hfm => ⟨hc _ (h.frameFK f hfm).1, hc _ (h.frameFK f hfm).2⟩⟩
+  ⟨by rw [hb]; exact fun b hbm => hc _ (h.blockFK b hbm), by rw [hf]; exact fun f hfm => ⟨hc _ (h.frameFK f hfm).1, hc _ (h.frameFK f hfm).2⟩,
+   by rw [hf]; exact h.frameOrder⟩
 
 theorem hasContainer_append (d : Db) (x : ContainerRow) (id : Nat) (h : d.hasContainer id = true) :
     ({ d with containers := d.containers ++ [x] } : Db).hasContainer id = true := by
@@ -727,7 +731,7 @@ theorem InvTree.deleteContainer {d : Db} (h : InvTree d) (id : Nat) : InvTree (d
       obtain ⟨r, hr, hre⟩ := (hasContainer_iff d c).mp hc
       rw [List.any_eq_true]
       exact ⟨r, List.mem_filter.mpr ⟨hr, by simp [hre, hne]⟩, by simp [hre]⟩
-    refine ⟨?_, ?_⟩
+    refine ⟨?_, ?_, fun f hf => h.frameOrder f (List.mem_filter.mp (show f ∈ d.frames.filter (fun f => !(f.cid == id) && !(f.parent == id)) from hf)).1⟩
     · intro b hb
       have hb' : b ∈ d.blocks.filter (fun b => !(b.cid == id)) := hb
       obtain ⟨hbm, hbk⟩ := List.mem_filter.mp hb'
@@ -768,7 +772,7 @@ theorem InvTree.insertBlock {d d' : Db} (h : InvTree d) (cid : Nat) (k o : Str) 
   split at he; · cases he
   rename_i hc
   cases he
-  refine ⟨?_, h.frameFK⟩
+  refine ⟨?_, h.frameFK, h.frameOrder⟩
   intro b hb
   rcases List.mem_append.mp hb with hb | hb
   · exact h.blockFK b hb
@@ -776,7 +780,7 @@ theorem InvTree.insertBlock {d d' : Db} (h : InvTree d) (cid : Nat) (k o : Str) 
     have : d.hasContainer cid = true := by simpa using hc
     exact this
 
-theorem InvTree.insertFrame {d d' : Db} (h : InvTree d) (cid par : Nat) (k o : Str) (he : d.insertFrame cid par k o = some d') : InvTree d' := by
+theorem InvTree.insertFrame {d d' : Db} (h : InvTree d) (cid par : Nat) (k o : Str) (hord : par < cid) (he : d.insertFrame cid par k o = some d') : InvTree d' := by
   unfold Db.insertFrame at he
   split at he; · cases he
   split at he; · cases he
@@ -786,14 +790,18 @@ theorem InvTree.insertFrame {d d' : Db} (h : InvTree d) (cid par : Nat) (k o : S
   split at he; · cases he
   rename_i hc2
   cases he
-  refine ⟨h.blockFK, ?_⟩
-  intro f hf
-  rcases List.mem_append.mp hf with hf | hf
-  · exact h.frameFK f hf
-  · simp at hf; subst hf
-    have h1 : d.hasContainer cid = true := by simpa using hc1
-    have h2 : d.hasContainer par = true := by simpa using hc2
-    exact ⟨h1, h2⟩
+  refine ⟨h.blockFK, ?_, ?_⟩
+  · intro f hf
+    rcases List.mem_append.mp hf with hf | hf
+    · exact h.frameFK f hf
+    · simp at hf; subst hf
+      have h1 : d.hasContainer cid = true := by simpa using hc1
+      have h2 : d.hasContainer par = true := by simpa using hc2
+      exact ⟨h1, h2⟩
+  · intro f hf
+    rcases List.mem_append.mp hf with hf | hf
+    · exact h.frameOrder f hf
+    · simp at hf; subst hf; exact hord
 
 theorem InvTree.insertLoopUnnumbered {d d' : Db} (h : InvTree d) (cid : Nat) (cat : Option Str)
     (he : d.insertLoopUnnumbered cid cat = .ok d') : InvTree d' := by
@@ -819,8 +827,8 @@ theorem Inv.insertBlock {d d' : Db} (h : Inv d) (cid : Nat) (k o : Str) (he : d.
   split at he; · cases he
   split at he; · cases he
   cases he; exact h.ext.sameLoops rfl rfl rfl
-theorem Inv.insertFrame {d d' : Db} (h : Inv d) (cid par : Nat) (k o : Str) (he : d.insertFrame cid par k o = some d') : Inv d' := by
-  refine ⟨h.core.insertFrame cid par k o he, ?_, h.tree.insertFrame cid par k o he⟩
+theorem Inv.insertFrame {d d' : Db} (h : Inv d) (cid par : Nat) (k o : Str) (hord : par < cid) (he : d.insertFrame cid par k o = some d') : Inv d' := by
+  refine ⟨h.core.insertFrame cid par k o he, ?_, h.tree.insertFrame cid par k o hord he⟩
   unfold Db.insertFrame at he
   split at he; · cases he
   split at he; · cases he
@@ -912,6 +920,30 @@ theorem Inv.setCategory {d d' : Db} (h : Inv d) (cid ln : Nat) (cat : Option Str
       first
       | exact h.ext.shrink (List.Sublist.refl _) rfl (map_keys_sub _ (fun l => by split <;> exact ⟨rfl, rfl⟩))
       | exact h.tree.same rfl rfl (fun _ hid => hid)
+
+/-- cif_container_create_frame inserts the frame under the id it has just drawn from the sequence: the parent, an existing container
+    other than the new one, is older -/
+theorem insertFrame_parent_lt {d d2 : Db} (h : Inv d) (par : Nat) (k o : Str)
+    (hi : d.insertContainer.1.insertFrame d.insertContainer.2 par k o = some d2) : par < d.insertContainer.2 := by
+  unfold Db.insertFrame at hi
+  split at hi; · cases hi
+  split at hi; · cases hi
+  split at hi; · cases hi
+  rename_i hne
+  split at hi; · cases hi
+  split at hi; · cases hi
+  rename_i hpar
+  have hpar' : d.insertContainer.1.hasContainer par = true := by simpa using hpar
+  obtain ⟨r, hr, hre⟩ := (hasContainer_iff _ _).mp hpar'
+  have hr' : r ∈ d.containers ++ [{ id := d.nextId, nextLoopNum := 0 }] := hr
+  show par < d.nextId
+  rcases List.mem_append.mp hr' with h1 | h1
+  · rw [← hre]; exact h.ext.idsBelow r h1
+  · simp at h1; subst h1
+    simp only [] at hre
+    exfalso
+    have : (d.insertContainer.2 == par) = true := by simp [Db.insertContainer, hre]
+    exact hne this
 
 -- ---- transactions: the content and every snapshot a rollback could restore satisfy the invariant ----------------------------
 
@@ -1110,7 +1142,7 @@ theorem createFrame_invS {s : Store} (h : InvS s) (hd : CH) (n : Option Name) (l
   split
   · exact h1.rollbackD s1 h1
   · rename_i d2 hi
-    exact (h1.setDb (h1.db.insertContainer.insertFrame _ _ _ _ hi)).commitD s1 h1
+    exact (h1.setDb (h1.db.insertContainer.insertFrame _ _ _ _ (insertFrame_parent_lt h1.db _ _ _ hi) hi)).commitD s1 h1
 
 theorem destroyContainer_invS {s : Store} (h : InvS s) (hd : CH) : InvS (destroyContainer s hd).1 := by
   unfold destroyContainer
